@@ -674,6 +674,14 @@ impl Host {
                                     m.push(json!({"h": "transfer", "w": h, "k": k}));
                                 }
                             }
+                            // the peer copies k items and drops its end before the guest sees the event: the host
+                            // delivers ONE event, DROPPED with a non-zero count (Component Model: the result code of a
+                            // copy event is computed at delivery and carries the progress made so far)
+                            for k in amounts(e.n) {
+                                if k > 0 {
+                                    m.push(json!({"h": "transferdrop", "w": h, "k": k}));
+                                }
+                            }
                         }
                         m.push(json!({"h": "peerdrop", "w": h}));
                     }
@@ -715,6 +723,19 @@ impl Host {
                 }
                 self.pending.insert(h, (Self::event_code(&e), Self::pack(COMPLETED, k, e.future)));
                 self.trace.push(json!({"ev": "host.transfer", "h": h, "k": k, "items": moved}));
+            }
+            "transferdrop" => {
+                let h = d["w"].as_u64().unwrap() as u32;
+                let k = d["k"].as_u64().unwrap() as usize;
+                let e = self.end(h).cloned().unwrap();
+                let moved = unsafe { self.peer_transfer(&e, k) };
+                if e.write {
+                    self.chans[e.chan].r_dropped = true;
+                } else {
+                    self.chans[e.chan].w_dropped = true;
+                }
+                self.pending.insert(h, (Self::event_code(&e), Self::pack(DROPPED, k, e.future)));
+                self.trace.push(json!({"ev": "host.transfer", "h": h, "k": k, "items": moved, "drop": true}));
             }
             "peerdrop" => {
                 let h = d["w"].as_u64().unwrap() as u32;
